@@ -1255,3 +1255,44 @@ Example C08_tr_case_run : let run := fun (args : list Z) (xr xo : Z) => TrViOp.o
 Proof. exact TrViOp4.case_run_examples. Qed.
 Local Open Scope N_scope.
 Local Open Scope Z_scope.
+
+(* character-wise vi_case: pref = line r1 up to o1, post = line r2 from o2 (uc_sub), the builder gets pref ++ converted region ++ post, which is handed to
+   lbuf_edit(xb, .., r1, r2 + 1); the builder is freed; xrow = r2, xoff = o2; region, pref, post freed; vi_drawfix(r1, r2, r2 - r1 + 1, 0); 16 *)
+Local Close Scope Z_scope.
+Local Close Scope N_scope.
+Theorem C08_tr_vi_case_chars : forall (ext : nat -> list CLite.val -> CLite.mem -> CLite.res (CLite.val * CLite.mem)) (fuel : nat),
+       TrViOp.oracles ext ->
+       forall (lown : nat -> Prop) (D : nat) (m : CLite.mem) (lb bln : nat) (lbs : list nat) (lines : list bytes) (r1 o1 r2 o2 ln cmd xr xo : Z)
+         (u' : CLite.val) (m6 : CLite.mem) (ud : CLite.val) (m9 : CLite.mem),
+       TrViOp.ed_at m lb bln lbs lines ->
+       (0 <= r1 + 1 <= 2147483647)%Z ->
+       CLiteTac.int_ok r2 ->
+       CLiteTac.int_ok (r2 + 1) ->
+       CLiteTac.int_ok (r2 - r1) ->
+       CLiteTac.int_ok (r2 - r1 + 1) ->
+       CLiteTac.int_ok o2 ->
+       TrViOp.region_in lines r1 (TrViOp.op_o1 ln o1) r2 (TrViOp.op_o2 ln o2) ->
+       TrViOp.lnb ln = false ->
+       TrViOp.sub_in (TrViOp.getb lines r1) 0 o1 ->
+       TrViOp.sub_in (TrViOp.getb lines r2) o2 (-1) ->
+       CLiteProps.cell_at m GenCFuncs.G_xrow xr ->
+       CLiteProps.cell_at m GenCFuncs.G_xoff xo ->
+       length (TrViOp.op_text lines r1 o1 r2 o2 ln) < fuel ->
+       (forall b : nat, lown b -> b < length m) ->
+       ~ lown GenCFuncs.G_xrow ->
+       ~ lown GenCFuncs.G_xoff ->
+       let p6 := length m + 1 + length (TrViOp.rg_tail r1 r2) in
+       ext GenCFuncs.X_lbuf_edit (CLite.VPtr lb 0 :: CLite.VPtr (p6 + 2) 0 :: CLite.VInt r1 :: CLite.VInt (r2 + 1) :: nil) (TrViOp4.case_mem7c m lines r1 o1 r2 o2 ln cmd) =
+       CLite.Ok (u', m6) ->
+       TrViOp.eframe lown (TrViOp4.case_mem7c m lines r1 o1 r2 o2 ln cmd) m6 ->
+       ext GenCFuncs.X_vi_drawfix (CLite.VInt r1 :: CLite.VInt r2 :: CLite.VInt (r2 - r1 + 1) :: CLite.VInt 0 :: nil) (TrViOp4.case_mem8c m m6 r1 r2 o2) = CLite.Ok (ud, m9) ->
+       CLiteExt.callx ext GenCFuncs.cprog fuel (S (S (S (S D)))) GenCFuncs.F_vi_case (CLite.VInt r1 :: CLite.VInt o1 :: CLite.VInt r2 :: CLite.VInt o2 :: CLite.VInt ln :: CLite.VInt cmd :: nil) m =
+       CLite.Ok (CLite.VInt 16, m9).
+Proof. exact TrViOp4.tr_vi_case_chars. Qed.
+Print Assumptions C08_tr_vi_case_chars.
+Local Open Scope N_scope.
+Local Open Scope Z_scope.
+Example C08_tr_case_chars_run :
+  TrViOp.op_show (CLiteExt.callx TrViOp.ideal_ext GenCFuncs.cprog 50 8 GenCFuncs.F_vi_case (map CLite.VInt [0; 1; 1; 2; 0; 126]%Z) (TrViOp.op_mem 0 1))
+  = Some (CLite.VInt 16, Some [CLite.VInt 1], Some [CLite.VInt 2], [map CLite.VInt [2; 0; 2; 97; 66; 10; 67; 68; 101; 10]%Z; map CLite.VInt [3; 0; 1; 2; 0]%Z]).
+Proof. exact TrViOp4.case_run_chars. Qed.
